@@ -799,6 +799,10 @@ pub(crate) fn open_tree<Fd: AsFd, P: AsRef<Path>>(
     let dirfd = dirfd.as_fd().hotfix_rustix_fd()?;
     let path = path.as_ref();
 
+    // Like every other descriptor we create, the cloned mount must be
+    // close-on-exec.
+    let flags = flags | OpenTreeFlags::OPEN_TREE_CLOEXEC;
+
     rustix_mount::open_tree(dirfd, path, flags).map_err(|errno| Error::OpenTree {
         dirfd: dirfd.into(),
         path: path.into(),
